@@ -313,9 +313,47 @@ def tkeys(tbl, on):
     return list(zip(*[tbl[c] for c in on])) if len(tbl) else []
 
 
+def _law_container_scalars(rng, tier):
+    """inputs that are not tables are scalars for perdictable WHATEVER they are: a list / tuple / range / callable value is handed to
+    f as given (all-scalar call) and broadcast whole into every row (beside a table), never dealt out element by element"""
+    import pyg_base
+    from pyg_base import dictable
+    seen = []
+
+    def f(a, b):
+        seen.append((a, b))
+        return ('f', a, b)
+    pf = pyg_base.perdictable(f, on='k')
+    for w in ([1, 2], (1, 2), [1, 2, 3], range(3), [], len, [[1, 2]]):
+        del seen[:]
+        try:
+            r = pf(a=w, b=5)
+        except Exception as e:
+            yield Finding('violation', dict(tag='law-container-scalar', lines=[], values=[repr(w)]), 'all inputs scalar, a = %r: the call raised %s instead of returning f(a, b)' % (w, type(e).__name__))
+            continue
+        if not (isinstance(r, tuple) and len(r) == 3 and r[0] == 'f' and r[1] is w and r[2] == 5 and len(seen) == 1):
+            yield Finding('violation', dict(tag='law-container-scalar', lines=[], values=[repr(w)]), 'all inputs scalar, a = %r: result %r after %d calls, not f(a, b)' % (w, r, len(seen)))
+        for keys in ([1, 2], [1, 2, 3], [7]):
+            del seen[:]
+            t = dictable(k=keys, b=[10 * k for k in keys])
+            try:
+                r = pf(a=w, b=t)
+                vals = list(r['data']) if isinstance(r, dictable) else None
+            except Exception as e:
+                yield Finding('violation', dict(tag='law-container-scalar', lines=[], values=[repr(w), repr(keys)]), 'a = %r beside a table with keys %r: the call raised %s' % (w, keys, type(e).__name__))
+                continue
+            want = [('f', w, 10 * k) for k in sorted(keys)]
+            ok = vals is not None and len(vals) == len(want) and all(v[0] == 'f' and v[1] is w and v[2] == x[2] for v, x in zip(vals, want))
+            if not ok:
+                yield Finding('violation', dict(tag='law-container-scalar', lines=[], values=[repr(w), repr(keys)]), 'a = %r beside a table with keys %r: values %r, expected f(a as given, b of the row) per row' % (w, keys, vals))
+
+
 def laws(rng, tier, ctx):
     n = 400 if tier == 'quick' else 6000
     count = 0
+    for fnd in _law_container_scalars(rng, tier):
+        yield fnd
+    count += 28
     for _ in range(n):
         tag, line = gen_case(rng, full=True)
         case = dict(tag='law-' + tag.split('+')[0], lines=[line])
